@@ -101,9 +101,11 @@ impl WriteStallController {
 		let mut stall_threshold: usize = 0;
 
 		loop {
+			verif_yield!("stall.loop_top");
 			// Create Notified FIRST to register for wakeups.
 			// Any notify_waiters() call after this point will wake us.
 			let notified = self.stall_cleared.notified();
+			verif_yield!("stall.registered");
 
 			// Check shutdown
 			if self.shutdown.load(Ordering::Acquire) {
@@ -158,6 +160,7 @@ impl WriteStallController {
 			}
 
 			// Wait
+			verif_yield!("stall.decided");
 			notified.await;
 		}
 	}
